@@ -14,7 +14,23 @@ var (
 	sites  map[uint32]uint64 // site -> hash of (count, index values) for diffing
 	funcs  map[uint32]struct{}
 	detail bool
+	seqOn  bool
+	seq    []uint64
 )
+
+// StartSeq begins a recording that keeps the full event sequence (site ids and index values), used to locate the first
+// point at which two traces diverge.
+func StartSeq() {
+	Start(false)
+	seqOn = true
+	seq = seq[:0]
+}
+
+// StopSeq ends a sequence recording.
+func StopSeq() []uint64 {
+	on, seqOn = false, false
+	return append([]uint64{}, seq...)
+}
 
 const prime = 1099511628211
 
@@ -22,6 +38,9 @@ func mix(x uint64) {
 	h ^= x
 	h *= prime
 	events++
+	if seqOn && len(seq) < 4000000 {
+		seq = append(seq, x)
+	}
 }
 
 // Start begins a recording. With detail, per-site summaries are kept so that two recordings can be diffed.
